@@ -34,6 +34,7 @@ EXPLANATION = (
 TECHNIQUE = 'memo-site inventory + typed call-graph cycle analysis through re-entrancy-guarded functions + abstract interpretation of the memo decorators and of the evaluation guard'
 
 SCOPE = 'supp/scope.py'
+DEBUG_ONLY = ('check_names', 'dump_flows', 'usages')
 
 
 def memo_sites(repo):
@@ -397,31 +398,35 @@ def run(repo, res):
                   sample='%s: marker %s reset in finally: %s' % (g.qual, p['marker'], p['reset_safe']))
 
     # ---- R3 one resolution path ------------------------------------------------------------------
-    lint = repo.module_func('supp/linter.py', 'lint')
-    ev = repo.method('supp/evaluator.py', 'EvalCtx', '_evaluate')
-    decl = repo.method('supp/evaluator.py', 'EvalCtx', 'declarations')
-    for fn, rel, label in ((lint, 'supp/linter.py', 'lint'), (ev, 'supp/evaluator.py', 'EvalCtx._evaluate'),
-                           (decl, 'supp/evaluator.py', 'EvalCtx.declarations')):
-        ex = Expander(fn)
-        calls = [c for c in ast.walk(fn) if isinstance(c, ast.Call) and isinstance(c.func, ast.Attribute)
-                 and c.func.attr in ('names_at', 'names', 'parent_names')]
-        attrs = [a for a in ast.walk(fn) if isinstance(a, ast.Attribute) and a.attr in ('names', 'parent_names', '_names')
-                 and unparse(a.value).endswith('flow')]
-        ok = bool(calls) and not attrs
-        texts = []
-        for c in calls:
-            t = ex.text(c)
-            texts.append(t)
-            # X.flow.names_at(np(X))
-            m = ast.parse(t, mode='eval').body
-            recv = unparse(m.func.value)
-            arg = unparse(m.args[0]) if m.args else ''
-            who = recv[:-5] if recv.endswith('.flow') else None
-            if who is None or arg not in ('np(%s)' % who, '(%s.lineno, %s.col_offset)' % (who, who)):
-                ok = False
-        res.check('C04-R3', '%s resolution path' % label, ok, rel, fn.lineno,
+    # (per module, not per function: the dispatch of the evaluator may live in a chain of tests, in helpers, in a table of functions)
+    repo.module_func('supp/linter.py', 'lint')
+    repo.method('supp/evaluator.py', 'EvalCtx', 'evaluate')
+    for rel, label in (('supp/linter.py', 'lint'), ('supp/evaluator.py', 'the evaluator')):
+        tree = repo.tree(rel)
+        fns = [f for f in ast.walk(tree) if isinstance(f, (ast.FunctionDef, ast.AsyncFunctionDef))]
+        texts, ok, nattrs = [], True, 0
+        for fn in fns:
+            if fn.name in DEBUG_ONLY:
+                continue
+            ex = Expander(fn)
+            own = [n for n in ast.walk(fn) if not any(n is not f2 and isinstance(f2, (ast.FunctionDef, ast.AsyncFunctionDef)) and f2 is not fn
+                                                      and any(n is y for y in ast.walk(f2)) for f2 in fns if f2 is not fn and any(f2 is z for z in ast.walk(fn)))]
+            for c in own:
+                if isinstance(c, ast.Call) and isinstance(c.func, ast.Attribute) and c.func.attr in ('names_at', 'names', 'parent_names'):
+                    t = ex.text(c)
+                    texts.append(t)
+                    m = ast.parse(t, mode='eval').body
+                    recv = unparse(m.func.value)
+                    arg = unparse(m.args[0]) if m.args else ''
+                    who = recv[:-5] if recv.endswith('.flow') else None
+                    if who is None or arg not in ('np(%s)' % who, '(%s.lineno, %s.col_offset)' % (who, who)):
+                        ok = False
+                if isinstance(c, ast.Attribute) and c.attr in ('names', 'parent_names', '_names') and unparse(c.value).endswith('flow'):
+                    nattrs += 1
+        ok = ok and bool(texts) and not nattrs
+        res.check('C04-R3', '%s resolution path' % label, ok, rel, 0,
                   "%s must obtain a read's table through names_at(np(read)) of the read's own region "
-                  '(found %s)' % (label, texts or 'no names_at call'),
+                  '(found %s%s)' % (label, texts or 'no names_at call', ', and %d direct reads of a region table' % nattrs if nattrs else ''),
                   sample='%s: %s' % (label, '; '.join(texts)[:120]))
 
     from .. import resolve_model as M
